@@ -98,7 +98,8 @@ def NoReader (s : State) (k : Nat) : Prop := ∀ (i : Nat) (rs : Resp), s.resps[
 structure Safe (s s' : State) : Prop where
   slen : s.socks.length ≤ s'.socks.length
   rlen : s.resps.length ≤ s'.resps.length
-  st : ∀ (i : Nat) (rs rs' : Resp), s.resps[i]? = some rs → s'.resps[i]? = some rs' → rs'.status = rs.status
+  st : ∀ (i : Nat) (rs rs' : Resp), s.resps[i]? = some rs → s'.resps[i]? = some rs' →
+    rs'.status = rs.status ∧ rs'.length = rs.length
   /-- a socket somebody reads from in `s'` has the kernel buffer it had in `s` -/
   sk : ∀ (i : Nat) (rs' : Resp) (k : Nat) (sk : Sock), s'.resps[i]? = some rs' → rs'.fp = some k → s.socks[k]? = some sk →
     ∃ sk', s'.socks[k]? = some sk' ∧ sk'.inbound = sk.inbound
@@ -115,9 +116,10 @@ structure Safe (s s' : State) : Prop where
       ∀ (c2 : Nat) (cn2 : Conn), s'.conns[c2]? = some cn2 → cn2.sock = some k → c2 = c)
 
 theorem st_of_eq {s s' : State} (h : s'.resps = s.resps) :
-    ∀ (i : Nat) (rs rs' : Resp), s.resps[i]? = some rs → s'.resps[i]? = some rs' → rs'.status = rs.status := by
+    ∀ (i : Nat) (rs rs' : Resp), s.resps[i]? = some rs → s'.resps[i]? = some rs' →
+      rs'.status = rs.status ∧ rs'.length = rs.length := by
   intro i rs rs' h1 h2
-  rw [h, h1] at h2; cases h2; rfl
+  rw [h, h1] at h2; cases h2; exact ⟨rfl, rfl⟩
 
 theorem Safe.refl (s : State) : Safe s s := by
   refine ⟨Nat.le_refl _, Nat.le_refl _, st_of_eq rfl, ?_, ?_, ?_⟩
@@ -149,7 +151,7 @@ theorem Safe.trans {s t u : State} (a : Safe s t) (b : Safe t u) : Safe s u := b
       · exact Nat.lt_of_lt_of_le h' a.rlen
       · rw [List.getElem?_eq_none h'] at h1; cases h1
     have ht : t.resps[i]? = some t.resps[i] := List.getElem?_eq_getElem hi
-    rw [b.st i _ rs' ht h2, a.st i rs _ h1 ht]
+    rw [(b.st i _ rs' ht h2).1, (a.st i rs _ h1 ht).1, (b.st i _ rs' ht h2).2, (a.st i rs _ h1 ht).2]; exact ⟨rfl, rfl⟩
   · intro i rs' k sk h1 h2 h3
     obtain ⟨rt, ht, hfp, _⟩ := b.open_old h1 h2
     obtain ⟨sk1, hs1, e1⟩ := a.sk i rt k sk ht hfp h3
@@ -233,7 +235,7 @@ theorem Safe.prov {A : Nat → Attempt → Prop} {s s' : State} {f : Focus} (h :
         · exact e4
         · rw [e4, q1]
       · right
-        refine ⟨a, hd, ⟨by rw [e1]; exact fr.att, fr.head, (by rw [h.st i rs rs' h0 h1]; exact fr.st), by rw [e1, e2]; exact fr.dpre, by rw [e2, e3]; exact fr.dlen,
+        refine ⟨a, hd, ⟨by rw [e1]; exact fr.att, fr.head, (by rw [(h.st i rs rs' h0 h1).1]; exact fr.st), by rw [e1, e2]; exact fr.dpre, by rw [e2, e3]; exact fr.dlen,
           by rw [e1]; exact fr.xpre, by rw [e3]; exact fr.xlen, ?_⟩⟩
         intro k hk
         rcases e4 with e4 | ⟨e4, e5, e6⟩
@@ -276,14 +278,14 @@ theorem noteClose_safe (s : State) (k : Nat) : Safe s (noteClose s k) := by
 theorem setResp_safe (s : State) (r : Nat) (g : Resp → Resp)
     (hg : ∀ x, (g x).rid = x.rid ∧ (g x).delivered = x.delivered ∧ (g x).isHead = x.isHead ∧
       ((g x).fp = none ∨ ((g x).fp = x.fp ∧ (g x).buf = x.buf ∧ (g x).length = x.length)))
-    (hst : ∀ x, (g x).status = x.status := by intro x; rfl) :
+    (hst : ∀ x, (g x).status = x.status ∧ (g x).length = x.length := by intro x; exact ⟨rfl, rfl⟩) :
     Safe s (setResp s r g) := by
   refine ⟨Nat.le_refl _, by simp [setResp], ?_, ?_, ?_, ?_⟩
   · intro i rs rs' h1 h2
     simp only [setResp, List.getElem?_modify, h1] at h2
     by_cases hri : r = i
     · simp [hri] at h2; subst h2; exact hst rs
-    · simp [hri] at h2; subst h2; rfl
+    · simp [hri] at h2; subst h2; exact ⟨rfl, rfl⟩
   · intro i rs' k sk _ _ h; exact ⟨sk, h, rfl⟩
   · intro i rs' h
     simp only [setResp, List.getElem?_modify] at h
@@ -1794,7 +1796,7 @@ theorem hp_safe {s0 s : State} {k c : Nat} (h : HP k c s0 s) (nr : NoReader s0 k
       rcases Nat.lt_or_ge i s0.resps.length with h' | h'
       · exact h'
       · rw [List.getElem?_eq_none h'] at h1; cases h1
-    rw [h.rold i hi, h1] at h2; cases h2; rfl
+    rw [h.rold i hi, h1] at h2; cases h2; exact ⟨rfl, rfl⟩
   · intro i rs' k' sk h1 h2 h3
     by_cases hi : i = s0.resps.length
     · subst hi; rw [(hr rs' h1).1] at h2; cases h2
